@@ -605,6 +605,43 @@ class PteraTransformer(NodeTransformer):
             node,
         )
 
+    def visit_With(self, node):
+        """Rewrite a with statement.
+
+        Before:
+            with ctx() as x:
+                ...
+
+        After:
+            with ctx() as x:
+                x = _ptera_interact('x', None, x)
+                ...
+        """
+
+        def _names(target):
+            if isinstance(target, ast.Name):
+                return [target]
+            elif isinstance(target, (ast.Tuple, ast.List)):
+                return [n for elt in target.elts for n in _names(elt)]
+            elif isinstance(target, ast.Starred):
+                return _names(target.value)
+            else:
+                return []
+
+        new_body = []
+        for item in node.items:
+            if item.optional_vars is not None:
+                for name in _names(item.optional_vars):
+                    new_body.extend(self.generate_interactions(name))
+        new_body.extend(self.visit_body(node.body))
+        return ast.copy_location(
+            ast.With(
+                items=[self.visit(item) for item in node.items],
+                body=new_body,
+            ),
+            node,
+        )
+
     def visit_ExceptHandler(self, node):
         if node.name is None:
             new_body = []
